@@ -208,6 +208,16 @@ class FIXTester:
         self._order_id += 1
         return self._order_id
 
+    def _order_id_of(self, order: FIXNewOrderSingle) -> int | str:
+        """OrderID of the order as the (simulated) exchange knows it."""
+        if order.order_id is not None:
+            return order.order_id
+        if order.clord_id_root not in self._order_ids:
+            # not reported yet: the id stays with the order from now on, also while
+            #   the order has not processed the first report
+            self._order_ids[order.clord_id_root] = self._next_order_id()
+        return self._order_ids[order.clord_id_root]
+
     def _next_exec_id(self) -> int:
         self._exec_id += 1
         return self._exec_id
@@ -271,7 +281,9 @@ class FIXTester:
         orig_clord_id = cxl_req[FTag.OrigClOrdID]
 
         m = FIXMessage(FMsg.ORDERCANCELREJECT)
-        m[37] = 0
+        order = self.registered_orders.get(clord_id)
+        # the reject refers to the same exchange order as its execution reports
+        m[37] = self._order_id_of(order) if order is not None else 0
         m[11] = clord_id
         m[41] = orig_clord_id
         m[39] = ord_status
@@ -329,16 +341,7 @@ class FIXTester:
         assert clord_id
         m[FTag.ClOrdID] = clord_id
 
-        if order.order_id is not None:
-            order_id = order.order_id
-        elif order.clord_id_root in self._order_ids:
-            # reported before, but the order has not processed that report yet
-            order_id = self._order_ids[order.clord_id_root]
-        else:
-            order_id = self._next_order_id()
-            self._order_ids[order.clord_id_root] = order_id
-
-        m[FTag.OrderID] = order_id
+        m[FTag.OrderID] = self._order_id_of(order)
         m[FTag.ExecID] = self._next_exec_id()
 
         if orig_clord_id:
